@@ -14,6 +14,7 @@ func checkC01(R *Run) {
 	_ = n
 	R.rule("frame-feed", "(shared with C02) a positional decoder is only ever handed a whole frame: it is never the destination of io.Copy / io.CopyN / TeeReader from a stream, where each Write would decode whatever one read returned")
 	R.ruleFrameFeed()
+	R.ruleShiftEncoding()
 	checkLayouts(R)
 }
 
